@@ -212,13 +212,19 @@ def keepSecs : List (Option (Sec α)) → List (Sec α)
   | none :: r => keepSecs r
   | some s :: r => s :: keepSecs r
 
-/-- one step: energy deposition is reset to 0 by pre-step, then ElossApplier, then the post
-    action (skipped when ElossApplier killed the track) -/
-def stepLedger (P : Particles α) (pid : Nat) (e : α) (inp : StepIn α) : StepRec α :=
-  let applicable := match inp.eloss with
-    | .none => false
-    | _ => inp.applicable
-  let a := elossApplier applicable inp.psaBoundary inp.hasAtRest e (0 : α) (calcOf e inp)
+/-- `eloss.is_applicable(track)` for the configured handler (NoELoss: never) -/
+def elossOn (inp : StepIn α) : Bool :=
+  match inp.eloss with
+  | .none => false
+  | _ => inp.applicable
+
+/-- the ElossApplier part of the step; energy deposition was reset to 0 by pre-step -/
+def alongStep (e : α) (inp : StepIn α) : ElossOut α :=
+  elossApplier (elossOn inp) inp.psaBoundary inp.hasAtRest e (0 : α) (calcOf e inp)
+
+/-- the post-step action applied to the state `a` left by the along-step (skipped when
+    ElossApplier killed the track: the range action is implicit) -/
+def postStep (P : Particles α) (pid : Nat) (inp : StepIn α) (a : ElossOut α) : StepRec α :=
   match a.stop with
   | .killedRange => ⟨a.e, a.dep, [], .killed, false, true⟩
   | _ =>
@@ -226,11 +232,16 @@ def stepLedger (P : Particles α) (pid : Nat) (e : α) (inp : StepIn α) : StepR
     | .none => ⟨a.e, a.dep, [], .alive, false, false⟩
     | .boundary exits => ⟨a.e, a.dep, [], if exits then .escaped else .alive, false, false⟩
     | .trackingCut =>
-      let r := trackingCut P pid a.e a.dep
-      ⟨r.1, r.2, [], .killed, true, false⟩
+      ⟨(trackingCut P pid a.e a.dep).1, (trackingCut P pid a.e a.dep).2, [], .killed, true, false⟩
     | .interact r =>
-      let o := applyInteraction P inp.postCut a.e a.dep r
-      ⟨o.e, o.dep, keepSecs o.secs, if o.killed then .killed else .alive, o.killed, false⟩
+      ⟨(applyInteraction P inp.postCut a.e a.dep r).e, (applyInteraction P inp.postCut a.e a.dep r).dep,
+        keepSecs (applyInteraction P inp.postCut a.e a.dep r).secs,
+        if (applyInteraction P inp.postCut a.e a.dep r).killed then .killed else .alive,
+        (applyInteraction P inp.postCut a.e a.dep r).killed, false⟩
+
+/-- one step of one track -/
+def stepLedger (P : Particles α) (pid : Nat) (e : α) (inp : StepIn α) : StepRec α :=
+  postStep P pid inp (alongStep e inp)
 
 /-! ### a track's step list and a whole event -/
 
